@@ -163,6 +163,9 @@ def load_stl_ascii(file_obj):
 
     # collect the keyword arguments for the Trimesh constructor
     kwargs = {}
+    # how often each name was seen so that finding a unique
+    # name for a solid isn't linear in the number of solids
+    name_counts = {}
 
     # keep track of our position in the file
     position = 0
@@ -227,7 +230,7 @@ def load_stl_ascii(file_obj):
             name = None
 
         # make sure geometry has a unique name for the scene
-        name = util.unique_name(name, kwargs)
+        name = util.unique_name(name, kwargs, counts=name_counts)
         # save the constructor arguments
         kwargs[name] = {
             "vertices": vertices.reshape((-1, 3)),
